@@ -282,6 +282,8 @@ class Judge:
         want = ACCEPT if lib_ok else REJECT
         if D.involves(t, ('float',)) and self.alt(t, s, 'FLOAT_AS_DOUBLE').v == want:
             return 'float-compared-as-double'
+        if D.involves(t, ('dateTime', 'time')) and self.alt(t, s, 'HOUR24_NOT_ROLLED').v == want:
+            return 'hour24-not-rolled-over'
         if D.involves(t, ('duration',)) and self.alt(t, s, 'DURATION_IGNORE_FRACTION').v == want:
             return 'duration-fraction-ignored'
         if any(ord(ch) > 0xFFFF for ch in s) and (deep_facet_kinds(t) & {'length', 'minLength', 'maxLength'}) and self.alt(t, s, 'STRING_LENGTH_UTF16').v == want:
@@ -1226,6 +1228,16 @@ def run_isolated(binary, cases, F, tag='c09'):
                 F.viol.append(('__crash__', '', {'rec': rec, 'case': c}))
                 continue
             kind = 'hang' if (rec.hang and not rec.crash) else 'crash'
+            if rec.crash and rec.crash.key().endswith(':?'):
+                # the report came without symbolised frames (llvm-symbolizer gives up on an overloaded machine): run the
+                # single step again, alone, until the innermost library frame is known (the crash is deterministic)
+                red = core.Case.from_json(reduced_case(c, st))
+                for _ in range(4):
+                    r2 = core.run_shard(binary, [red], tag=tag + 's', per_case_timeout=120.0).get(red.id)
+                    if r2 is not None and r2.crash and not r2.crash.key().endswith(':?'):
+                        rec.crash = r2.crash
+                        break
+                    time.sleep(3)
             key = 'C09:' + (rec.crash.key() if rec.crash else 'hang:' + c.meta.get('class', 'dtype'))
             o = c.steps[st][2]
             what = 'sanitizer/crash report in step %s (k=%s, type=%s)' % (st, o.get('k'), o.get('t', o.get('name', '')))
